@@ -71,7 +71,7 @@ def units(tier):
     if tier == 'thorough':
         for h in ALL:
             if h not in ('h_entrywise', 'h_rowcol_ops', 'h_submatrix_insert_delete', 'h_special'):
-                add(h, 5, 3, 4 if h in ('h_rref', 'h_elimination') else None, timeout=1500)
+                add(h, 5, 3, 3 if h in ('h_rref', 'h_elimination') else None, timeout=1500)      # 3x4 over GF(5): no verdict in 6000 s for rref/elimination (measured), so 3x3
         for h in ('h_det', 'h_pivoted_lu', 'h_solve_lu', 'h_solve_plu', 'h_solve_ffgj', 'h_inv_lu', 'h_inv_gj', 'h_solve_ffge', 'h_ffldu', 'h_product'):
             add(h, 3, 4, timeout=1500)
         add('h_rref', 3, 4, 3, timeout=1500); add('h_elimination', 3, 4, 3, timeout=1500)
